@@ -122,6 +122,10 @@ def step (env : Env) (line : String) : Env × Option String :=
   | some "iter" => (env, some (withData toks 1 fun d => showR (sList sCodeData) (iterCode d)))
   | some "allcode" => (env, some (withData toks 1 fun d => showR (sList sCodeData) (allCode d)))
   | some "tojson" => (env, some (withData toks 1 fun d => "OK " ++ sJson (jCodeData d)))
+  | some "schemavalid" =>
+    match runP pJson (toks.extract 1 toks.size) with
+    | .ok j => (env, some ("OK " ++ toString (validate Extracted.jsonDefs Extracted.jsonRoot j)))
+    | .error e => (env, some ("PARSE " ++ e))
   | some "fromjson" =>
     match runP pJson (toks.extract 1 toks.size) with
     | .ok j => (env, some (showR sCodeData (codeDataFromJson j)))
